@@ -205,6 +205,11 @@ def pieces_repr(o):
         for i, x in enumerate(o):
             out += ([', '] if i else []) + pieces_repr(x)
         return out + [']']
+    if type(o) in (set, frozenset) and len(o):
+        out = ['{'] if type(o) is set else ['frozenset({']
+        for i, x in enumerate(o):
+            out += ([', '] if i else []) + pieces_repr(x)
+        return out + (['}'] if type(o) is set else ['})'])
     if type(o) is dict:
         out = ['{']
         for i, (k, v) in enumerate(o.items()):
